@@ -2,7 +2,7 @@
    chain, the configuration invariant linking containers to the specification, and the
    stage sequences of the message flows. *)
 From Coq Require Import Strings.String Strings.Byte.
-From Coq Require Import List Arith NArith ZArith Bool Lia Sorting.Sorted.
+From Coq Require Import List Arith NArith ZArith Bool Lia Sorting.Sorted Sorting.Permutation.
 From Verif Require Import Base.Bytes Model.Plugins.
 Import ListNotations.
 
@@ -1251,3 +1251,269 @@ Lemma chains_distinct_lemma ops st :
   run ops = Some st ->
   forall j, j < length (s_conts st) -> NoDup (map p_name (c_flat (get_cont st j))).
 Proof. intros R. apply (inv_names _ _ (run_inv _ _ R)). Qed.
+
+(* ------------------------------------------------------------------ histories with distinct names never exit *)
+
+Definition names (l : list plugin) : list N := map p_name l.
+Definition chain_of (st : pstate) (j : nat) : list plugin :=
+  s_left st ++ c_middle (get_cont st j) ++ s_right st.
+
+Record ok (st : pstate) (used : list N) (nr : nat) (hs : list (kind * N)) : Prop := mkOk {
+  ok_nr : length (s_routers st) = nr;
+  ok_rr : Forall (fun i => i < length (s_conts st)) (s_routers st);
+  ok_hs : forall k hid, existsb (handler_is k hid) (s_handlers st) = existsb (key_is k hid) hs;
+  ok_len : 0 < length (s_conts st);
+  ok_nd : forall j, NoDup (names (chain_of st j));
+  ok_used : forall j n, In n (names (chain_of st j)) -> In n used
+}.
+
+Lemma refresh_all_total ids : forall st,
+  (forall j, NoDup (names (chain_of st j))) -> exists st', refresh_all st ids = Some st'.
+Proof.
+  induction ids as [|i r IH]; intros st H; cbn [refresh_all]; [eauto|].
+  unfold refresh. fold (chain_of st i). unfold names in H. rewrite (NoDup_nodupb _ (H i)).
+  apply IH. intros j. unfold chain_of, get_cont, set_cont. cbn.
+  destruct (Nat.eq_dec i j) as [->|Hne].
+  - destruct (Nat.lt_ge_cases j (length (s_conts st))).
+    + rewrite nth_upd_eq by assumption. cbn. apply (H j).
+    + rewrite nth_overflow by (rewrite upd_length; lia).
+      specialize (H j). unfold chain_of, get_cont in H. rewrite nth_overflow in H by lia. exact H.
+  - rewrite nth_upd_neq by exact Hne. apply (H j).
+Qed.
+
+Lemma nodup_insert (l m r ps : list N) :
+  NoDup (l ++ m ++ r) -> NoDup ps -> (forall n, In n ps -> ~ In n (l ++ m ++ r)) ->
+  NoDup (l ++ (m ++ ps) ++ r).
+Proof.
+  intros H1 H2 H3.
+  apply (Permutation_NoDup (l := ps ++ (l ++ m ++ r))).
+  - rewrite <- app_assoc.
+    transitivity (l ++ ps ++ m ++ r).
+    + apply Permutation_app_swap_app.
+    + apply Permutation_app_head. rewrite !app_assoc. apply Permutation_app_tail. apply Permutation_app_comm.
+  - apply nodup_app_disjoint; assumption.
+Qed.
+
+Lemma nodup_front (ps x : list N) :
+  NoDup x -> NoDup ps -> (forall n, In n ps -> ~ In n x) -> NoDup (ps ++ x).
+Proof. intros. apply nodup_app_disjoint; assumption. Qed.
+
+Lemma nodup_back (l m r ps : list N) :
+  NoDup (l ++ m ++ r) -> NoDup ps -> (forall n, In n ps -> ~ In n (l ++ m ++ r)) ->
+  NoDup (l ++ m ++ r ++ ps).
+Proof.
+  intros H1 H2 H3.
+  replace (l ++ m ++ r ++ ps) with ((l ++ m ++ r) ++ ps) by (rewrite <- !app_assoc; reflexivity).
+  apply (Permutation_NoDup (l := ps ++ (l ++ m ++ r))); [apply Permutation_app_comm|].
+  apply nodup_app_disjoint; assumption.
+Qed.
+
+Lemma clone_nth st parent ps st' n :
+  clone st parent ps = Some (st', n) ->
+  n = length (s_conts st) /\ parent < n /\ length (s_conts st') = S n /\
+  s_left st' = s_left st /\ s_right st' = s_right st /\
+  s_routers st' = s_routers st /\ s_handlers st' = s_handlers st /\
+  s_unk_call st' = s_unk_call st /\ s_unk_push st' = s_unk_push st /\
+  forall j, c_middle (get_cont st' j) =
+            if Nat.eqb j n then c_middle (get_cont st parent) ++ ps else c_middle (get_cont st j).
+Proof.
+  intros C. destruct (clone_some _ _ _ _ _ C) as (Hn & Hp & E & _). cbn zeta in E.
+  split; [exact Hn|]. split; [exact Hp|].
+  split; [subst st'; cbn; rewrite upd_length, app_length; cbn; lia|].
+  split; [subst st'; reflexivity|]. split; [subst st'; reflexivity|].
+  split; [subst st'; reflexivity|]. split; [subst st'; reflexivity|].
+  split; [subst st'; reflexivity|]. split; [subst st'; reflexivity|].
+  intros j. subst st'. unfold get_cont. cbn [with_conts s_conts].
+  destruct (Nat.eq_dec j parent) as [->|Hne].
+  - rewrite nth_upd_eq by (rewrite app_length; cbn; lia). cbn [c_middle].
+    replace (Nat.eqb parent n) with false by (symmetry; apply Nat.eqb_neq; lia). reflexivity.
+  - rewrite nth_upd_neq by congruence.
+    destruct (Nat.eqb j n) eqn:E2.
+    + apply Nat.eqb_eq in E2. subst j. rewrite Hn, app_nth2, Nat.sub_diag by lia. reflexivity.
+    + apply Nat.eqb_neq in E2. destruct (Nat.lt_ge_cases j n).
+      * rewrite app_nth1 by lia. reflexivity.
+      * rewrite !nth_overflow; [reflexivity | lia | rewrite app_length; cbn; lia].
+Qed.
+
+Lemma clone_succeeds st parent ps :
+  parent < length (s_conts st) ->
+  NoDup (names (s_left st ++ (c_middle (get_cont st parent) ++ ps) ++ s_right st)) ->
+  exists st' n, clone st parent ps = Some (st', n).
+Proof.
+  intros Hp Hchk. unfold clone. apply Nat.ltb_lt in Hp as Hp'. rewrite Hp'.
+  unfold refresh. unfold get_cont in *. cbn [with_conts s_conts s_left s_right].
+  rewrite app_nth2, Nat.sub_diag by lia. cbn [nth c_middle].
+  unfold names in Hchk. rewrite (NoDup_nodupb _ Hchk). eauto.
+Qed.
+
+Lemma clone_total st used nr hs parent ps :
+  ok st used nr hs -> parent < length (s_conts st) ->
+  NoDup (names ps) -> (forall n, In n (names ps) -> ~ In n used) ->
+  exists st' n, clone st parent ps = Some (st', n) /\ n = length (s_conts st) /\
+    s_routers st' = s_routers st /\ s_handlers st' = s_handlers st /\
+    length (s_conts st') = S n /\
+    (forall j, NoDup (names (chain_of st' j))) /\
+    (forall j m, In m (names (chain_of st' j)) -> In m (used ++ names ps)).
+Proof.
+  intros O Hp Hn Hf.
+  assert (Hchk : NoDup (names (s_left st ++ (c_middle (get_cont st parent) ++ ps) ++ s_right st))).
+  { unfold names. rewrite !map_app. apply nodup_insert.
+    - rewrite <- !map_app. apply (ok_nd _ _ _ _ O parent).
+    - exact Hn.
+    - intros n Hin Hx. apply (Hf n Hin). apply (ok_used _ _ _ _ O parent). unfold names, chain_of.
+      rewrite !map_app. exact Hx. }
+  destruct (clone_succeeds _ _ _ Hp Hchk) as (st' & n & C).
+  destruct (clone_nth _ _ _ _ _ C) as (En & _ & Hlen & EL & ER & ERo & EH & _ & _ & Hmid).
+  exists st', n. split; [exact C|]. split; [exact En|]. split; [exact ERo|]. split; [exact EH|].
+  split; [exact Hlen|]. split.
+  - intros j. unfold chain_of. rewrite EL, ER, Hmid.
+    destruct (Nat.eqb j n); [exact Hchk | apply (ok_nd _ _ _ _ O j)].
+  - intros j m. unfold chain_of. rewrite EL, ER, Hmid. destruct (Nat.eqb j n).
+    + unfold names. rewrite !map_app, !in_app_iff. intros [H|[[H|H]|H]].
+      * left. apply (ok_used _ _ _ _ O parent). unfold names, chain_of. rewrite !map_app, !in_app_iff. auto.
+      * left. apply (ok_used _ _ _ _ O parent). unfold names, chain_of. rewrite !map_app, !in_app_iff. auto.
+      * right. exact H.
+      * left. apply (ok_used _ _ _ _ O parent). unfold names, chain_of. rewrite !map_app, !in_app_iff. auto.
+    + intros H. apply in_app_iff. left. apply (ok_used _ _ _ _ O j). exact H.
+Qed.
+
+Lemma refresh_all_mid ids st st' :
+  refresh_all st ids = Some st' ->
+  s_left st' = s_left st /\ s_right st' = s_right st /\ s_routers st' = s_routers st /\
+  s_handlers st' = s_handlers st /\ length (s_conts st') = length (s_conts st) /\
+  forall j, c_middle (get_cont st' j) = c_middle (get_cont st j).
+Proof.
+  intros R. destruct (refresh_all_some _ _ _ R) as (cs' & E & Hlen & Ha & Hb). subst st'.
+  cbn [with_conts s_left s_right s_routers s_handlers s_conts]. repeat split; auto.
+  intros j. unfold get_cont. cbn [with_conts s_conts].
+  destruct (in_dec Nat.eq_dec j ids) as [Hi|Hi].
+  - destruct (Nat.lt_ge_cases j (length cs')) as [Hj|Hj].
+    + destruct (Ha j Hi Hj) as [Hx _]. rewrite Hx. reflexivity.
+    + rewrite !nth_overflow by lia. reflexivity.
+  - rewrite (Hb j Hi). reflexivity.
+Qed.
+
+Lemma nodup_app_l {A} (a b : list A) : NoDup (a ++ b) -> NoDup a.
+Proof. induction a as [|x a IH]; cbn; intros H; [constructor|]. inversion H; subst. constructor; [|auto]. rewrite in_app_iff in *. tauto. Qed.
+Lemma nodup_app_r {A} (a b : list A) : NoDup (a ++ b) -> NoDup b.
+Proof. induction a as [|x a IH]; cbn; intros H; [exact H|]. inversion H; subst. auto. Qed.
+Lemma nodup_app_disj {A} (a b : list A) x : NoDup (a ++ b) -> In x a -> ~ In x b.
+Proof.
+  induction a as [|y a IH]; cbn; intros H Hx; [destruct Hx|]. inversion H; subst.
+  destruct Hx as [->|Hx]; [rewrite in_app_iff in *; tauto | auto].
+Qed.
+
+Lemma step_total st used nr hs o r :
+  ok st used nr hs -> refs_ok nr hs (o :: r) = true ->
+  NoDup (names (op_plugins o)) -> (forall n, In n (names (op_plugins o)) -> ~ In n used) ->
+  exists st' nr' hs', step st o = Some st' /\ ok st' (used ++ names (op_plugins o)) nr' hs' /\
+                      refs_ok nr' hs' r = true.
+Proof.
+  intros O Hr Hn Hf.
+  destruct o as [parent ps | k rt hid hs0 ps | k hid hs0 ps | ps | ps]; cbn [refs_ok op_plugins step] in *.
+  - (* SubRoute *)
+    apply andb_true_iff in Hr as [Hp Hr]. apply Nat.ltb_lt in Hp. rewrite <- (ok_nr _ _ _ _ O) in Hp.
+    destruct (nth_error (s_routers st) parent) as [pc|] eqn:En; [|apply nth_error_None in En; lia].
+    assert (Hpc : pc < length (s_conts st)) by (apply (nth_error_range _ _ _ (fun i => i < length (s_conts st)) En), (ok_rr _ _ _ _ O)).
+    destruct (clone_total _ _ _ _ _ _ O Hpc Hn Hf) as (st1 & n & C & En' & ERo & EH & Hlen & Hnd & Hus).
+    rewrite C. eexists _, (S nr), hs. split; [reflexivity|]. split; [|exact Hr].
+    constructor; cbn [s_routers s_handlers s_conts s_left s_right].
+    + rewrite ERo, app_length, (ok_nr _ _ _ _ O). cbn. lia.
+    + rewrite ERo, Hlen. apply Forall_app. split; [|constructor; [lia | constructor]].
+      eapply Forall_impl; [|apply (ok_rr _ _ _ _ O)]. cbn. intros. lia.
+    + rewrite EH. apply (ok_hs _ _ _ _ O).
+    + lia.
+    + exact Hnd.
+    + exact Hus.
+  - (* Route* *)
+    apply andb_true_iff in Hr as [Hr1 Hr]. apply andb_true_iff in Hr1 as [Hp Hk].
+    apply Nat.ltb_lt in Hp. rewrite <- (ok_nr _ _ _ _ O) in Hp.
+    destruct (nth_error (s_routers st) rt) as [pc|] eqn:En; [|apply nth_error_None in En; lia].
+    assert (Hpc : pc < length (s_conts st)) by (apply (nth_error_range _ _ _ (fun i => i < length (s_conts st)) En), (ok_rr _ _ _ _ O)).
+    rewrite (ok_hs _ _ _ _ O). apply negb_true_iff in Hk. rewrite Hk.
+    destruct (clone_total _ _ _ _ _ _ O Hpc Hn Hf) as (st1 & n & C & En' & ERo & EH & Hlen & Hnd & Hus).
+    rewrite C. eexists _, nr, (hs ++ [(k, hid)]). split; [reflexivity|]. split; [|exact Hr].
+    constructor; cbn [s_routers s_handlers s_conts s_left s_right].
+    + rewrite ERo. apply (ok_nr _ _ _ _ O).
+    + rewrite ERo, Hlen. eapply Forall_impl; [|apply (ok_rr _ _ _ _ O)]. cbn. intros. lia.
+    + intros k' hid'. rewrite EH, !existsb_app, (ok_hs _ _ _ _ O). reflexivity.
+    + lia.
+    + exact Hnd.
+    + exact Hus.
+  - (* SetUnknown* *)
+    destruct (clone_total _ _ _ _ 0 _ O (ok_len _ _ _ _ O) Hn Hf) as (st1 & n & C & En' & ERo & EH & Hlen & Hnd & Hus).
+    rewrite C. destruct k; (eexists _, nr, hs; split; [reflexivity|]; split; [|exact Hr];
+      constructor; cbn [s_routers s_handlers s_conts s_left s_right];
+      [ rewrite ERo; apply (ok_nr _ _ _ _ O)
+      | rewrite ERo, Hlen; eapply Forall_impl; [|apply (ok_rr _ _ _ _ O)]; cbn; intros; lia
+      | rewrite EH; apply (ok_hs _ _ _ _ O)
+      | lia | exact Hnd | exact Hus ]).
+  - (* AppendLeft *)
+    set (st0 := mkSt (ps ++ s_left st) (s_right st) (s_conts st) (s_routers st) (s_handlers st) (s_unk_call st) (s_unk_push st)).
+    assert (H0 : forall j, NoDup (names (chain_of st0 j))).
+    { intros j. unfold chain_of, st0, get_cont. cbn. unfold names. rewrite <- app_assoc, map_app.
+      apply nodup_front; [apply (ok_nd _ _ _ _ O j) | exact Hn |].
+      intros n Hin Hx. apply (Hf n Hin). apply (ok_used _ _ _ _ O j). exact Hx. }
+    unfold refresh_tree. destruct (refresh_all_total (tree_order (length (s_conts st0)) (s_conts st0) 0) st0 H0) as [st' R].
+    fold st0. rewrite R. destruct (refresh_all_mid _ _ _ R) as (EL & ER & ERo & EH & Hlen & Hmid).
+    eexists _, nr, hs. split; [reflexivity|]. split; [|exact Hr].
+    constructor.
+    + rewrite ERo. apply (ok_nr _ _ _ _ O).
+    + rewrite ERo, Hlen. apply (ok_rr _ _ _ _ O).
+    + rewrite EH. apply (ok_hs _ _ _ _ O).
+    + rewrite Hlen. apply (ok_len _ _ _ _ O).
+    + intros j. unfold chain_of. rewrite EL, ER, Hmid. apply (H0 j).
+    + intros j n. unfold chain_of. rewrite EL, ER, Hmid. unfold st0, get_cont. cbn.
+      unfold names. rewrite <- app_assoc, map_app, !in_app_iff. intros [H|H]; [right; exact H | left].
+      apply (ok_used _ _ _ _ O j). exact H.
+  - (* AppendRight *)
+    set (st0 := mkSt (s_left st) (s_right st ++ ps) (s_conts st) (s_routers st) (s_handlers st) (s_unk_call st) (s_unk_push st)).
+    assert (H0 : forall j, NoDup (names (chain_of st0 j))).
+    { intros j. unfold chain_of, st0, get_cont. cbn. unfold names. rewrite !map_app.
+      apply nodup_back; [| exact Hn |].
+      - rewrite <- !map_app. apply (ok_nd _ _ _ _ O j).
+      - intros n Hin Hx. apply (Hf n Hin). apply (ok_used _ _ _ _ O j). unfold names, chain_of. rewrite !map_app. exact Hx. }
+    unfold refresh_tree. destruct (refresh_all_total (tree_order (length (s_conts st0)) (s_conts st0) 0) st0 H0) as [st' R].
+    fold st0. rewrite R. destruct (refresh_all_mid _ _ _ R) as (EL & ER & ERo & EH & Hlen & Hmid).
+    eexists _, nr, hs. split; [reflexivity|]. split; [|exact Hr].
+    constructor.
+    + rewrite ERo. apply (ok_nr _ _ _ _ O).
+    + rewrite ERo, Hlen. apply (ok_rr _ _ _ _ O).
+    + rewrite EH. apply (ok_hs _ _ _ _ O).
+    + rewrite Hlen. apply (ok_len _ _ _ _ O).
+    + intros j. unfold chain_of. rewrite EL, ER, Hmid. apply (H0 j).
+    + intros j n. unfold chain_of. rewrite EL, ER, Hmid. unfold st0, get_cont. cbn.
+      unfold names. rewrite !map_app, !in_app_iff. intros [H|[H|[H|H]]]; [left|left|left|right; exact H];
+        apply (ok_used _ _ _ _ O j); unfold names, chain_of, get_cont; rewrite !map_app, !in_app_iff; auto.
+Qed.
+
+Lemma run_from_total ops : forall st used nr hs,
+  ok st used nr hs -> refs_ok nr hs ops = true ->
+  NoDup (names (history_plugins ops)) ->
+  (forall n, In n (names (history_plugins ops)) -> ~ In n used) ->
+  exists st', run_from st ops = Some st'.
+Proof.
+  induction ops as [|o r IH]; intros st used nr hs O Hr Hn Hf; cbn [run_from]; [eauto|].
+  unfold history_plugins in Hn, Hf. cbn [flat_map] in Hn, Hf. unfold names in Hn, Hf. rewrite map_app in Hn, Hf.
+  destruct (step_total _ _ _ _ o r O Hr) as (st1 & nr' & hs' & S & O' & Hr').
+  - apply (nodup_app_l _ _ Hn).
+  - intros n Hin. apply Hf. apply in_app_iff. left. exact Hin.
+  - rewrite S. apply (IH st1 _ nr' hs' O' Hr').
+    + apply (nodup_app_r _ _ Hn).
+    + intros n Hin Hx. apply in_app_iff in Hx as [Hx|Hx].
+      * apply (Hf n); [apply in_app_iff; right; exact Hin | exact Hx].
+      * apply (nodup_app_disj _ _ n Hn Hx). exact Hin.
+Qed.
+
+Lemma run_total ops :
+  refs_ok 1 [] ops = true -> NoDup (map p_name (history_plugins ops)) -> exists st, run ops = Some st.
+Proof.
+  intros Hr Hn. apply (run_from_total ops init_state [] 1 []); auto.
+  constructor.
+  - reflexivity.
+  - cbn. repeat constructor.
+  - reflexivity.
+  - cbn. lia.
+  - intros j. destruct j as [|[|j]]; cbn; constructor.
+  - intros j n. destruct j as [|[|j]]; cbn; tauto.
+Qed.
